@@ -27,7 +27,7 @@ STATEMENT = (
     "cancel-token cancellations on one stream descriptor, on the io_uring and on the polling driver "
     "(compio-runtime/src/fd/{mod.rs,poll_fd/mod.rs,poll_fd/unix.rs,async_fd/mod.rs,async_fd/unix.rs}, "
     "compio-runtime/src/future/future.rs Submit, compio-driver/src/sys/op/general/{iour,poll}.rs PollOnce/Read/Write): "
-    "(a) a PollFd readiness future (read_ready/write_ready/accept_ready/connect_ready) never reports Ok unless the "
+    "(a) a PollFd readiness future (read_ready/write_ready; accept_ready/connect_ready are the same code) never reports Ok unless the "
     "descriptor was ready in that direction at some moment since somebody began to wait for it, and a pending waiter "
     "of a direction that is ready is always eventually woken and, polled again, completes (no lost wake-up); "
     "(b) the read slot and the write slot are independent: a completion, drop or cancellation in one direction never "
@@ -61,7 +61,7 @@ DESIGN_REF = "extension/X02"
 JVM = ["-XX:+UseSerialGC", "-XX:-UseParallelGC"]
 # short runs: C1 only (halves the CPU a TLC start costs); the big thorough configs keep the full JIT
 JVM_SHORT = JVM + ["-XX:TieredStopAtLevel=1"]
-BIG = {"MC_FdReady_thorough.cfg", "MC_FdReady_live_thorough.cfg", "MC_FdAsync_thorough.cfg", "MC_FdAsync_mid.cfg", "Gen_FdReady_thorough.cfg",
+BIG = {"MC_FdReady_thorough.cfg", "MC_FdAsync_thorough.cfg", "MC_FdAsync_mid.cfg", "Gen_FdReady_thorough.cfg",
        "Gen_FdReady_same_thorough.cfg"}
 
 # (module, cfg, workers) exhaustive configs; liveness configs; controls (cfg -> what must be violated)
@@ -69,19 +69,17 @@ MC = {
     "quick": [("FdReady", "MC_FdReady.cfg", 1), ("FdReady", "MC_FdReady_tok.cfg", 2), ("FdReady", "MC_FdReady_same.cfg", 2),
               ("FdAsync", "MC_FdAsync.cfg", 2)],
     "thorough": [("FdReady", "MC_FdReady_thorough.cfg", 4), ("FdReady", "MC_FdReady.cfg", 1),
-                 ("FdReady", "MC_FdReady_tokfill.cfg", 2), ("FdReady", "MC_FdReady_same.cfg", 1),
-                 ("FdReady", "MC_FdReady_three.cfg", 1), ("FdAsync", "MC_FdAsync.cfg", 1),
+                 ("FdReady", "MC_FdReady_same.cfg", 1), ("FdReady", "MC_FdReady_three.cfg", 1),
                  ("FdAsync", "MC_FdAsync_mid.cfg", 2), ("FdAsync", "MC_FdAsync_thorough.cfg", 2)],
 }
 # MC_FdReady.cfg and MC_FdAsync.cfg check safety AND liveness in one run (SPECIFICATION FairSpec, INVARIANTS and
 # PROPERTIES); the configs below are liveness only
 LIVE = {
     "quick": [],
-    "thorough": [("FdReady", "MC_FdReady_live_thorough.cfg", 3), ("FdReady", "MC_FdReady_live_same.cfg", 1)],
+    "thorough": [("FdReady", "MC_FdReady_live_thorough.cfg", 2), ("FdReady", "MC_FdReady_live_same.cfg", 1)],
 }
 CONTROLS = {
-    "quick": [("FdReady", "MC_FdReady_ctl_strict.cfg", "NoErr"), ("FdReady", "MC_FdReady_ctl_cross.cfg", "NoErr"),
-              ("FdAsync", "MC_FdAsync_ctl_dup.cfg", "ExactlyOnce")],
+    "quick": [("FdReady", "MC_FdReady_ctl_strict.cfg", "NoErr"), ("FdAsync", "MC_FdAsync_ctl_dup.cfg", "ExactlyOnce")],
     "thorough": [("FdReady", "MC_FdReady_ctl_strict.cfg", "NoErr"), ("FdReady", "MC_FdReady_ctl_cross.cfg", "NoErr"),
                  ("FdReady", "MC_FdReady_ctl_nowake.cfg", "CoveredModuloKnown"),
                  ("FdReady", "MC_FdReady_ctl_norearm.cfg", "CoveredModuloKnown"),
@@ -92,10 +90,11 @@ CONTROLS = {
 }
 GEN = {
     "quick": [("Gen_FdReady", "Gen_FdReady.cfg"), ("Gen_FdReady", "Gen_FdReady_same.cfg"),
-              ("Gen_FdReady", "Gen_FdReady_iour.cfg"), ("Gen_FdAsync", "Gen_FdAsync.cfg")],
+              ("Gen_FdReady", "Gen_FdReady_deep_r.cfg"), ("Gen_FdReady", "Gen_FdReady_iour.cfg"),
+              ("Gen_FdAsync", "Gen_FdAsync.cfg")],
     "thorough": [("Gen_FdReady", "Gen_FdReady_thorough.cfg"), ("Gen_FdReady", "Gen_FdReady_same_thorough.cfg"),
-                 ("Gen_FdReady", "Gen_FdReady_iour.cfg"), ("Gen_FdReady", "Gen_FdReady_poll.cfg"),
-                 ("Gen_FdAsync", "Gen_FdAsync_thorough.cfg")],
+                 ("Gen_FdReady", "Gen_FdReady_deep_r.cfg"), ("Gen_FdReady", "Gen_FdReady_iour.cfg"),
+                 ("Gen_FdReady", "Gen_FdReady_poll.cfg"), ("Gen_FdAsync", "Gen_FdAsync_thorough.cfg")],
 }
 # actions that cannot fire in a given variant (DrvPoll is the generator's driver step, the others the checker's)
 IGNORE_ZERO = {"DrvPoll"}
@@ -251,9 +250,11 @@ def _negative_control(path, tmp):
 
 
 def run(run, tier, replay):
-    with cf.ThreadPoolExecutor(max_workers=4) as p0:
-        for f in [p0.submit(vlib.sany, m) for m in ("FdReady", "Gen_FdReady", "FdAsync", "Gen_FdAsync")]:
-            f.result()
+    if tier != "quick":
+        # (quick: every module is parsed by the TLC runs below anyway; a parse error fails them as a tool error)
+        with cf.ThreadPoolExecutor(max_workers=4) as p0:
+            for f in [p0.submit(vlib.sany, m) for m in ("FdReady", "Gen_FdReady", "FdAsync", "Gen_FdAsync")]:
+                f.result()
     tmp = vlib.scratch()
     try:
         if replay:
@@ -273,7 +274,9 @@ def run(run, tier, replay):
             run.cov["states"] = run.cov["transitions"] = 1
             return
 
-        pool = cf.ThreadPoolExecutor(max_workers=6)
+        # quick: everything starts at once (11 short JVM runs of 1-2 workers; on a loaded machine the wall time is
+        # the CPU share, so queueing them would only add up); thorough: at most 6 at a time
+        pool = cf.ThreadPoolExecutor(max_workers=12 if tier == "quick" else 6)
         # the harness build shares the machine with TLC: start it first
         build = pool.submit(xlib.cargo_build, "hx02", ["replay_fd", "stress_fd"])
         # 1. exhaustive configs (safety), liveness, controls
